@@ -179,7 +179,7 @@ class Main(Suite):
     name = "main"
     go_cmd = "c02"
     coq_imports = IMPORTS
-    quick_n = 450
+    quick_n = 380
     thorough_n = 3000
 
     def gen(self, rng, n, tier):
